@@ -330,6 +330,108 @@ theorem triggers_iff_configured (l : Leaves)
   obtain ⟨h1, h2, h3, h4, h5, h6⟩ := h
   simp [debTriggers, h1, h2, h3, h4, h5, h6]
 
+/-! ### `key = value` metadata (apk and archlinux .PKGINFO) can be read back -/
+
+/-- one line of parseKV -/
+def kvParseLine (line : Bytes) : Option (Bytes × Bytes) :=
+  match line with
+  | [] => none
+  | c :: _ =>
+    if c = 35 || c = space then none
+    else
+      let k := line.takeWhile (· != space)
+      let rest := line.dropWhile (· != space)
+      if hasPrefix rest b!" = " then some (k, rest.drop 3) else none
+
+theorem parseKV_eq (text : Bytes) : parseKV text = (splitOn nl text).filterMap kvParseLine := rfl
+
+/-- what the format can express: a non-empty key without blanks or newlines that does not start a comment,
+    a value without newlines -/
+structure WfKV (p : Bytes × Bytes) : Prop where
+  key_ne : p.1 ≠ []
+  key_plain : ∀ c ∈ p.1, c ≠ space ∧ c ≠ nl
+  key_head : p.1.head? ≠ some 35
+  val_no_nl : nl ∉ p.2
+
+theorem hasPrefix_append (p s : Bytes) : hasPrefix (p ++ s) p = true := by
+  induction p with
+  | nil => cases s <;> rfl
+  | cons x xs ih => simp [hasPrefix, ih]
+
+theorem kvParseLine_line (p : Bytes × Bytes) (h : WfKV p) : kvParseLine (p.1 ++ b!" = " ++ p.2) = some p := by
+  obtain ⟨k, v⟩ := p
+  cases hk : k with
+  | nil => exact absurd hk h.key_ne
+  | cons c cs =>
+    have hc : c ≠ 35 := by
+      intro e; apply h.key_head; simp [hk, e]
+    have hcs : c ≠ space := (h.key_plain c (by simp [hk])).1
+    have hd : ∀ x ∈ c :: cs, (x != space) = true := by
+      intro x hx; simp only [bne_iff_ne, ne_eq]; exact (h.key_plain x (by simpa [hk] using hx)).1
+    have e : (c :: cs) ++ b!" = " ++ v = (c :: cs) ++ space :: (61 :: space :: v) := by simp [space]
+    show kvParseLine ((c :: cs) ++ b!" = " ++ v) = some (c :: cs, v)
+    rw [e]
+    unfold kvParseLine
+    simp only [List.cons_append, hc, hcs, Bool.or_self, Bool.false_eq_true, if_false, decide_false]
+    have e2 : c :: (cs ++ space :: 61 :: space :: v) = (c :: cs) ++ space :: (61 :: space :: v) := by simp
+    rw [e2, takeWhile_append_stop (fun x => x != space) _ space _ hd (by simp),
+      dropWhile_append_stop (fun x => x != space) _ space _ hd (by simp)]
+    have hp : hasPrefix (space :: 61 :: space :: v) b!" = " = true := by
+      have := hasPrefix_append b!" = " v
+      simpa [space] using this
+    simp [hp]
+
+theorem splitOn_nl_lines (ls : List Bytes) (h : ∀ l ∈ ls, nl ∉ l) :
+    splitOn nl (ls.flatMap (· ++ [nl])) = ls ++ [[]] := by
+  have := splitOn_unlines ls h
+  simpa [unlines] using this
+
+/-- **`key = value` round trip**: the reader recovers exactly the pairs with a non-empty value (empty ones are not
+    written), in order – for the pairs archlinux writes after its comment line and for apk's lines alike -/
+theorem kv_roundtrip (pairs : List (Bytes × Bytes)) (h : ∀ p ∈ pairs, WfKV p) :
+    parseKV (b!"# Generated by nfpm\n" ++ pairs.flatMap (fun p => kvLine p.1 p.2)) = pairs.filter (fun p => p.2 ≠ []) := by
+  have hbody : pairs.flatMap (fun p => kvLine p.1 p.2)
+      = ((pairs.filter (fun p => p.2 ≠ [])).map (fun p => p.1 ++ b!" = " ++ p.2)).flatMap (· ++ [nl]) := by
+    induction pairs with
+    | nil => rfl
+    | cons p rest ih =>
+      have ih' := ih (fun q hq => h q (List.mem_cons_of_mem _ hq))
+      rw [List.flatMap_cons, ih']
+      by_cases hv : p.2 = []
+      · have e : kvLine p.1 p.2 = [] := by simp [kvLine, hv]
+        rw [e, List.filter_cons]
+        simp [hv]
+      · have e : kvLine p.1 p.2 = (p.1 ++ b!" = " ++ p.2) ++ [nl] := by simp [kvLine, hv]
+        rw [e, List.filter_cons]
+        simp [hv]
+  have hcomment : b!"# Generated by nfpm\n" = [b!"# Generated by nfpm"].flatMap (· ++ [nl]) := by decide
+  rw [parseKV_eq, hbody, hcomment, ← List.flatMap_append, splitOn_nl_lines]
+  · simp only [List.filterMap_append, List.filterMap_cons, List.filterMap_nil]
+    have hc : kvParseLine b!"# Generated by nfpm" = none := by decide
+    have hn : kvParseLine [] = none := rfl
+    rw [hc, hn]
+    simp only [List.nil_append, List.append_nil, List.filterMap_map]
+    have : ∀ l : List (Bytes × Bytes), (∀ p ∈ l, WfKV p) →
+        l.filterMap (kvParseLine ∘ fun p => p.1 ++ b!" = " ++ p.2) = l := by
+      intro l hl
+      induction l with
+      | nil => rfl
+      | cons p rest ih =>
+        simp only [List.filterMap_cons, Function.comp, kvParseLine_line p (hl p (by simp))]
+        rw [ih (fun q hq => hl q (List.mem_cons_of_mem _ hq))]
+    exact this _ (fun p hp => h p (List.mem_filter.mp hp).1)
+  · intro l hl
+    rcases List.mem_append.mp hl with hl | hl
+    · simp only [List.mem_cons, List.mem_nil_iff, or_false] at hl; subst hl; decide
+    · obtain ⟨p, hp, rfl⟩ := List.mem_map.mp hl
+      have w := h p (List.mem_filter.mp hp).1
+      intro hm
+      simp only [List.mem_append] at hm
+      rcases hm with (h1 | h1) | h1
+      · exact (w.key_plain _ h1).2 rfl
+      · revert h1; decide
+      · exact w.val_no_nl h1
+
 /-- known finding C02/C15-arch-pkgver-prerelease, as a kernel-checked witness: what archlinux writes
     differs from what the configuration states -/
 theorem arch_pkgver_drops_prerelease_witness :
